@@ -489,6 +489,13 @@ fn sizes_json(st: &PushState) -> (Value, Value) {
 fn long_program(rng: &mut SmallRng, pool: &[PushInstruction], family: u64) -> (Vec<PushProgram>, bool) {
     let item = |v: Value| item_from_json(&v);
     match family {
+        // voluminous output: K print.string instructions of B bytes each (flat; B * min(L, K) bytes)
+        6 => {
+            let k = rng.random_range(1..=300usize);
+            let b = [1usize, 100, 1000, 5000][rng.random_range(0..4)];
+            let text: String = (0..b).map(|j| char::from(b'a' + (j % 26) as u8)).collect();
+            ((0..k).map(|_| PushProgram::Instruction(PushInstruction::PrintString(push::instruction::printing::PrintString(text.clone())))).collect(), true)
+        }
         // flat: every step removes exactly one exec item and adds none
         0 => {
             let k = rng.random_range(0..=3000usize);
@@ -618,9 +625,13 @@ pub fn long_runs(args: &[String]) -> i32 {
     let pool = instruction_pool();
     for run in first..first + runs {
         let mut rng = run_rng(seed, 0xC03, run);
-        let family = rng.random_range(0..5u64);
+        let family = match rng.random_range(0..6u64) { 5 => 6, f => f };
         let (program, flat) = long_program(&mut rng, &pool, family);
         let k = program.len();
+        let bytes_each = match program.first() {
+            Some(PushProgram::Instruction(PushInstruction::PrintString(t))) if family == 6 => Some(t.0.len()),
+            _ => None,
+        };
         let exec_max = if flat { k } else { k.max(1) + [0usize, 1, 5, 50, 1000].choose(&mut rng).expect("m") };
         let other_max = *[0usize, 1, 2, 10, 100, 1000].choose(&mut rng).expect("m");
         let mut ladder: Vec<usize> = vec![0, 1, 2, k / 2, k.saturating_sub(1), k, k + 1, 10 * k + 7, max_limit / 10, max_limit];
@@ -663,9 +674,13 @@ pub fn long_runs(args: &[String]) -> i32 {
             match r {
                 Ok((status, err, (sizes, maxes), text)) => {
                     let prefix_ok = prev_text.as_ref().is_none_or(|p| text.starts_with(p.as_str()));
-                    writeln!(f, "{}", json!({"ev": "bound", "run": run, "family": family, "limit": limit,
+                    let mut ev = json!({"ev": "bound", "run": run, "family": family, "limit": limit,
                         "status": status, "err": err, "sizes": sizes, "max": maxes, "flat": flat, "k": k,
-                        "outbytes": text.len(), "prefix_ok": prefix_ok})).expect("w");
+                        "outbytes": text.len(), "prefix_ok": prefix_ok});
+                    if let Some(b) = bytes_each {
+                        ev["bytes_each"] = json!(b);
+                    }
+                    writeln!(f, "{ev}").expect("w");
                     prev_text = Some(text);
                     if status == "fatal" {
                         // larger limits give the same abort; one more rung checks that
